@@ -22,7 +22,9 @@ class _Widths(dict):
     def __missing__(self, c):
         import unicodedata
 
-        w = 0 if unicodedata.combining(c) else (2 if unicodedata.east_asian_width(c) in ("W", "F") else 1)
+        o = ord(c)
+        zero = unicodedata.combining(c) or 0x200B <= o <= 0x200D or 0xE0100 <= o <= 0xE01EF or 0x1160 <= o <= 0x11FF
+        w = 0 if zero else (2 if unicodedata.east_asian_width(c) in ("W", "F") else 1)
         self[c] = w
         return w
 
